@@ -5,7 +5,9 @@ import (
 	"go/constant"
 	"go/token"
 	"go/types"
+	"strconv"
 	"strings"
+	"sync"
 
 	"golang.org/x/tools/go/ssa"
 )
@@ -1181,6 +1183,25 @@ func (tb *TermBuilder) callTerm(c *ssa.CallCommon, v ssa.Value) *Term {
 	if key == "dyn" && !c.IsInvoke() {
 		if ft := tb.Of(c.Value); ft.Op == "fn" {
 			if target, ok := ft.Val.(*ssa.Function); ok && target.Signature.Recv() == nil {
+				// a method expression (`T.Method`, `Iface.Method`): the thunk stands for the method call on its first argument
+				if strings.HasSuffix(target.Name(), "$thunk") && len(target.Blocks) == 1 && len(c.Args) == len(target.Params) {
+					var inner *ssa.Call
+					n := 0
+					for _, ins := range target.Blocks[0].Instrs {
+						if ic, isCall := ins.(*ssa.Call); isCall {
+							inner = ic
+							n++
+						}
+					}
+					if n == 1 && (inner.Call.IsInvoke() || inner.Call.StaticCallee() != nil) {
+						ikey, ifn, iobj := tb.P.CalleeKey(&inner.Call)
+						var args []*Term
+						for _, a := range c.Args {
+							args = append(args, tb.Of(a))
+						}
+						return &Term{Op: "call", Name: ikey, Args: args, Callee: ifn, Obj: iobj, Val: v}
+					}
+				}
 				for depth := 0; depth < 3; depth++ {
 					if len(target.Params) != 0 || len(target.Blocks) != 1 || !tb.P.IsSubject(target) {
 						break
@@ -1231,7 +1252,42 @@ func (tb *TermBuilder) callTerm(c *ssa.CallCommon, v ssa.Value) *Term {
 			return &Term{Op: b.Name(), Args: args[:1]}
 		}
 	}
+	if key == "dyn" {
+		// calls through a function value whose target is unknown are not one value: every call site is its own term
+		key = "dyn#" + strconv.Itoa(dynOrdinal(v))
+	}
 	return &Term{Op: "call", Name: key, Args: args, Callee: fn, Obj: obj, Val: v}
+}
+
+var dynOrdMu sync.Mutex
+var dynOrd = map[*ssa.Function]map[ssa.Value]int{}
+
+// dynOrdinal: the position of a dynamic call among the dynamic calls of its function (block and instruction order).
+func dynOrdinal(v ssa.Value) int {
+	c, ok := v.(*ssa.Call)
+	if !ok || c.Parent() == nil {
+		return 0
+	}
+	dynOrdMu.Lock()
+	defer dynOrdMu.Unlock()
+	fn := c.Parent()
+	m, has := dynOrd[fn]
+	if !has {
+		m = map[ssa.Value]int{}
+		n := 0
+		for _, b := range fn.Blocks {
+			for _, ins := range b.Instrs {
+				if cc, isCall := ins.(*ssa.Call); isCall && !cc.Call.IsInvoke() && cc.Call.StaticCallee() == nil {
+					if _, isB := cc.Call.Value.(*ssa.Builtin); !isB {
+						n++
+						m[cc] = n
+					}
+				}
+			}
+		}
+		dynOrd[fn] = m
+	}
+	return m[v]
 }
 
 // CallArgs returns the argument values of a call in the same order as the
@@ -1278,7 +1334,11 @@ func (t *Term) Stable() string {
 		for i, a := range t.Args {
 			as[i] = a.Stable()
 		}
-		return t.Name + "(" + strings.Join(as, ", ") + ")"
+		name := t.Name
+		if strings.HasPrefix(name, "dyn#") {
+			name = "dyn"
+		}
+		return name + "(" + strings.Join(as, ", ") + ")"
 	case "res":
 		if t.Idx == 0 {
 			return t.Args[0].Stable()
